@@ -56,6 +56,15 @@ pub(super) fn run_artifact_fetch(
         Err(err) => return ToolOutput::failure(vec![format!("artifact_fetch failed: {err}")]),
     };
     buf.truncate(read_bytes);
+    // Do not end a page inside a multi-byte character when more data follows: the next page
+    // starts at `offset + bytes`, and each half would decode to a replacement character.
+    if offset + (read_bytes as u64) < total_bytes {
+        let tail = incomplete_utf8_tail_len(&buf);
+        if tail < buf.len() {
+            buf.truncate(buf.len() - tail);
+        }
+    }
+    let read_bytes = buf.len();
 
     let (content, utf8_truncated, used_bytes) = truncate_utf8(&buf, max_bytes);
     let truncated = utf8_truncated || (offset + read_bytes as u64) < total_bytes;
@@ -73,6 +82,29 @@ pub(super) fn run_artifact_fetch(
             "truncated": truncated,
         })),
     }
+}
+
+/// Length of an incomplete multi-byte UTF-8 sequence at the end of `bytes` (0 if the buffer ends
+/// on a character boundary or in bytes that are not UTF-8 at all).
+fn incomplete_utf8_tail_len(bytes: &[u8]) -> usize {
+    let len = bytes.len();
+    for back in 1..=len.min(3) {
+        let byte = bytes[len - back];
+        if byte & 0xC0 == 0x80 {
+            continue;
+        }
+        let need = if byte >= 0xF0 {
+            4
+        } else if byte >= 0xE0 {
+            3
+        } else if byte >= 0xC0 {
+            2
+        } else {
+            1
+        };
+        return if need > back { back } else { 0 };
+    }
+    0
 }
 
 fn artifacts_blobs_dir(config: &BuiltinToolConfig) -> std::path::PathBuf {
